@@ -55,6 +55,7 @@ func main() {
 	if *replay != "" {
 		os.Exit(doReplay(prop, *replay))
 	}
+	partialRun = *only != "" || *runsOverride > 0
 	d := &driver{prop: prop, tier: *tier, seed: seed, keep: *keep, only: *only, runsOverride: *runsOverride, par: *par}
 	os.Exit(d.run())
 }
@@ -72,5 +73,12 @@ func evidenceDir() string {
 	if v := os.Getenv("VERIF_EVIDENCE_DIR"); v != "" {
 		return v
 	}
+	if partialRun {
+		// --only / --runs are debugging aids: what they cover is not the
+		// registered check's coverage
+		return filepath.Join(verifDir, ".build", "evidence-partial")
+	}
 	return filepath.Join(verifDir, "evidence")
 }
+
+var partialRun bool
